@@ -6,6 +6,7 @@
    any function assigns them.  Gen/ImportsSrc.v: updateImports sorts before it names. *)
 From Coq Require Import List String Arith Bool.
 Import ListNotations.
+From DV Require Import Model.Decision Gen.DecisionSrc Proofs.PathOrderProofs.
 From DV Require Import Model.Conc Proofs.ConcProofs Gen.Access Gen.ImportsSrc
   Model.Resolvers Model.Decision Model.DecisionInterp Gen.DecisionSrc Proofs.DecisionProofs Gen.PuritySrc.
 Local Open Scope string_scope.
@@ -84,6 +85,21 @@ Example C16_nonvacuous :
   run_lock None ([(1, ELock)] ++ (1, EWrite 0) :: [(1, EUnlock); (2, ELock)]) = Some (Some 2).
 Proof. vm_compute. repeat split. Qed.
 
+
+(* packagePathOrderLess -- the order that makes the chosen names and the printed import list independent of map iteration order -- is translated from restorer.go on every run
+   (a decision program: one guarded return, one return) and proved to compute Model/Imports.path_less for
+   every pair of paths: paths with a dot after paths without, otherwise by string order *)
+Theorem C16_path_order_source_computes_the_model :
+  forall a b,
+    match run (order_val a b) packagepathorderless_src with
+    | OReturn (DVal s) => order_sym a b s = Some (Model.Imports.path_less a b)
+    | _ => False
+    end.
+Proof. exact path_order_source_is_model. Qed.
+
+Theorem C16_path_order_source_is_within_the_vocabulary : order_vocabulary_ok = true.
+Proof. vm_compute. reflexivity. Qed.
+
 Print Assumptions C16_shared_resolver_accesses_hold_the_mutex.
 Print Assumptions C16_shared_state_is_the_per_file_cache.
 Print Assumptions C16_name_resolvers_are_pure_functions_of_their_map.
@@ -92,3 +108,5 @@ Print Assumptions C16_no_package_level_state_is_written.
 Print Assumptions C16_locked_accesses_are_ordered.
 Print Assumptions C16_cache_is_transparent.
 Print Assumptions C16_import_names_do_not_follow_map_order.
+Print Assumptions C16_path_order_source_computes_the_model.
+Print Assumptions C16_path_order_source_is_within_the_vocabulary.
